@@ -182,6 +182,10 @@ pub struct Agg {
     pub counters: BTreeMap<String, u64>,
     pub samples: Vec<Value>,
     pub viols: Vec<(Viol, Value, Vec<String>)>,
+    /// scenario index of each entry of `viols` (u64::MAX when not re-runnable)
+    pub viol_idx: Vec<u64>,
+    pub unreproduced: BTreeMap<String, u64>,
+    pub cur_index: u64,
     pub other_prop_viols: BTreeMap<String, u64>,
     pub known: BTreeMap<String, u64>,
     pub inconclusive: Vec<String>,
@@ -198,6 +202,9 @@ impl Agg {
             counters: BTreeMap::new(),
             samples: vec![],
             viols: vec![],
+            viol_idx: vec![],
+            unreproduced: BTreeMap::new(),
+            cur_index: u64::MAX,
             other_prop_viols: BTreeMap::new(),
             known: BTreeMap::new(),
             inconclusive: vec![],
@@ -239,8 +246,10 @@ impl Agg {
                     *self.known.entry(sig).or_default() += 1;
                 } else if self.viols.len() < 50 {
                     self.viols.push((v, o.desc.clone(), o.trace.clone()));
+                    self.viol_idx.push(self.cur_index);
                 } else {
                     self.viols.push((v, Value::Null, vec![]));
+                    self.viol_idx.push(self.cur_index);
                 }
             } else {
                 *self.other_prop_viols.entry(v.signature()).or_default() += 1;
@@ -265,6 +274,10 @@ impl Agg {
             }
         }
         self.viols.extend(other.viols);
+        self.viol_idx.extend(other.viol_idx);
+        for (k, v) in other.unreproduced {
+            *self.unreproduced.entry(k).or_default() += v;
+        }
         for (k, v) in other.other_prop_viols {
             *self.other_prop_viols.entry(k).or_default() += v;
         }
@@ -301,7 +314,9 @@ where
                         break;
                     }
                     let o = f(i);
+                    agg.cur_index = i;
                     agg.add(o, known);
+                    agg.cur_index = u64::MAX;
                     if agg.viols.len() >= 20 {
                         stop.store(true, Ordering::Relaxed);
                     }
@@ -310,7 +325,35 @@ where
             });
         }
     });
-    total.into_inner().unwrap()
+    let mut agg = total.into_inner().unwrap();
+    // Confirmation: scenarios are replayable from their index, so every reported violation is
+    // re-run sequentially; one that cannot be reproduced in three attempts points at harness
+    // nondeterminism rather than at tarpc and is recorded as unreproduced, not as a violation.
+    if !agg.viols.is_empty() && std::env::var("VERIF_NO_CONFIRM").is_err() {
+        let mut keep = vec![];
+        let mut keep_idx = vec![];
+        let mut verdict: std::collections::HashMap<(u64, String), bool> = std::collections::HashMap::new();
+        let viols = std::mem::take(&mut agg.viols);
+        let idxs = std::mem::take(&mut agg.viol_idx);
+        for ((v, d, t), i) in viols.into_iter().zip(idxs.into_iter()) {
+            let ok = if i == u64::MAX || verdict.len() > 40 {
+                true
+            } else {
+                *verdict.entry((i, v.signature())).or_insert_with(|| {
+                    (0..3).any(|_| f(i).viols.iter().any(|x| x.prop == v.prop && x.rule == v.rule))
+                })
+            };
+            if ok {
+                keep.push((v, d, t));
+                keep_idx.push(i);
+            } else {
+                *agg.unreproduced.entry(v.signature()).or_default() += 1;
+            }
+        }
+        agg.viols = keep;
+        agg.viol_idx = keep_idx;
+    }
+    agg
 }
 
 // ---------------------------------------------------------------- known findings
@@ -449,6 +492,9 @@ pub fn finish_named(ctx: &RunCtx, rep: Report, file_stem: &str) -> i32 {
     }
     if !agg.known.is_empty() {
         coverage.insert("known_findings_matched".into(), json!(agg.known));
+    }
+    if !agg.unreproduced.is_empty() {
+        coverage.insert("unreproduced_observations".into(), json!(agg.unreproduced));
     }
     if !inconclusive.is_empty() {
         coverage.insert("inconclusive".into(), json!(inconclusive));
